@@ -61,5 +61,7 @@ issue c1leaf "client c1chain" ica1 "$CLI"
 cat c1leaf.pem ica1.pem > c1chain.pem
 mv c1leaf.key.pem c1chain.key.pem
 rm -f c1leaf.pem
-for f in s1good s1bad s2good s1ip c1 c2; do openssl verify -CAfile ca1.pem -CAfile ca2.pem "$f.pem" >/dev/null 2>&1 || true; done
+openssl verify -CAfile ca1.pem s1good.pem s1bad.pem s1ip.pem c1.pem
+openssl verify -CAfile ca2.pem s2good.pem c2.pem
+openssl verify -CAfile ca1.pem -untrusted ica1.pem c1chain.pem
 ls -1 *.pem
